@@ -432,17 +432,17 @@ def run(ctx):
     for fl in flavours(ctx):
         ctx.unit = fl
         ctx.doc('C10.7', 'native API forwarding: each public entry point of this property reaches the implementation of the same name with its parameters in order and returns its result (sibling slips such as trylock -> lock, signal -> broadcast, swapped arguments)')
-        lib.native_forwarding(ctx, 'C10.7', fl, lambda n: n in ('myth_key_create', 'myth_key_delete', 'myth_setspecific', 'myth_getspecific'), floor=6)
+        ctx.attempt(lib.native_forwarding, ctx, 'C10.7', fl, lambda n: n in ('myth_key_create', 'myth_key_delete', 'myth_setspecific', 'myth_getspecific'), floor=6)
         v = ctx.view(NATIVE, roots=['myth_tls_tree_get', 'myth_tls_tree_set', 'myth_tls_key_allocator_alloc',
                                     'myth_tls_key_allocator_dealloc', 'myth_tls_tree_node_alloc_leaf', 'myth_tls_tree_node_alloc_node'],
                      stops=('myth_tls_tree_node_alloc', 'myth_malloc') + lib.SPIN_STOPS, flavour=fl)
-        rule1_range(ctx, v)
-        rule2_decomp(ctx, v)
-        rule3_follows(ctx, fl)
-        rule45_alloc(ctx, fl, v)
-        rule4_init_chain(ctx, fl)
-        rule6_reuse(ctx, v)
-        rule2_levels(ctx, v)
+        ctx.attempt(rule1_range, ctx, v)
+        ctx.attempt(rule2_decomp, ctx, v)
+        ctx.attempt(rule3_follows, ctx, fl)
+        ctx.attempt(rule45_alloc, ctx, fl, v)
+        ctx.attempt(rule4_init_chain, ctx, fl)
+        ctx.attempt(rule6_reuse, ctx, v)
+        ctx.attempt(rule2_levels, ctx, v)
 
 
 TLS = 'src/myth_tls_func.h'
